@@ -5,6 +5,24 @@ from __future__ import annotations
 from typing import Any, Dict, List, Optional
 
 
+def _continue(tr, cur, rm, request, context, orig):
+    """Classify a pass-through continuation exactly like a top-level level, then execute it."""
+    from primaite.simulator.core import RequestManager
+
+    key = request[0] if request else None
+    if key not in rm.request_types:
+        cur["end"], cur["depth"] = "key-miss", tr.depth
+    else:
+        rt = rm.request_types[key]
+        if not rt.validator(request[1:], context):
+            cur["end"], cur["depth"] = "validator", tr.depth
+            cur["validator"] = type(rt.validator).__name__
+        elif not isinstance(rt.func, RequestManager):
+            cur["handler"], cur["depth"] = True, tr.depth
+            cur["rest"] = list(request[1:])
+    return orig(rm, request, context)
+
+
 class ReqTrace:
     def __init__(self):
         self.depth = 0
@@ -39,7 +57,14 @@ class ReqTrace:
                             cur["validator"] = type(rt.validator).__name__
                         elif not isinstance(rt.func, RequestManager):
                             cur["handler"], cur["depth"] = True, tr.depth
+                            cur["rest"] = list(request[1:])
                 elif cur is not None and cur["handler"]:
+                    if cur["end"] is None and cur.get("rest") is not None and list(request) == cur["rest"] and cur["rest"]:
+                        # the 'handler' only passed the rest of the request on (component.apply_request registered as a
+                        # route): this call continues the same path
+                        cur["handler"] = False
+                        cur["rest"] = None
+                        return call(rm, request, context) if False else _continue(tr, cur, rm, request, context, orig)
                     cur["nested"] += 1  # requests issued by handlers (terminal commands, c2 ...)
                 return orig(rm, request, context)
             finally:
@@ -78,5 +103,10 @@ def dry_run(rm, request: List, context: Optional[Dict] = None) -> bool:
             return False
         if isinstance(rt.func, RequestManager):
             cur, req = rt.func, req[1:]
+            continue
+        owner = getattr(rt.func, "__self__", None)
+        if getattr(rt.func, "__name__", "") == "apply_request" and owner is not None and hasattr(owner, "_request_manager") and len(req) > 1:
+            # a component's apply_request registered as the route: the path continues in that component's manager
+            cur, req = owner._request_manager, req[1:]
             continue
         return True
